@@ -336,6 +336,34 @@ def r4(ctx: Context) -> None:
             ok = "args" in keys and "args" in used and any(isinstance(a, ast.Starred) for st in br.body for c in ast.walk(st) if isinstance(c, ast.Call) for a in c.args)
             ctx.add("R4", f"json-envelope::{env}::args-round-trip", ok, rec.loc(br), "" if ok else "the exception arguments are not carried and re-applied (`cls(*args)`)")
             # encoder side: args come from obj.args
+    # an envelope that carries only the class NAME is rebuilt from the builtins namespace by the
+    # decoder, so the encoder may use it only for classes whose module is builtins
+    pm_ = {}
+    for n_ in ast.walk(default.node):
+        for ch in ast.iter_child_nodes(n_):
+            pm_[id(ch)] = n_
+    for n_ in ast.walk(default.node):
+        if isinstance(n_, ast.Dict):
+            for k_, v_ in zip(n_.keys, n_.values):
+                if k_ is not None and ast.unparse(k_).startswith("ReservedKeys.") and isinstance(v_, ast.Dict):
+                    env = ast.unparse(k_).split(".")[1]
+                    keys_ = {kk.value for kk in v_.keys if isinstance(kk, ast.Constant)}
+                    if "module" in keys_ or env not in readers:
+                        continue
+                    rtxt = " ".join(ast.unparse(st) for st in readers[env][1].body)
+                    if "builtins" not in rtxt:
+                        continue
+                    guard = None
+                    cur = pm_.get(id(n_))
+                    while cur is not None:
+                        if isinstance(cur, ast.If) and any(x is n_ for st in cur.body for x in ast.walk(st)) and "isinstance" not in ast.unparse(cur.test):
+                            guard = cur
+                            break
+                        cur = pm_.get(id(cur))
+                    gt = ast.unparse(guard.test) if guard is not None else ""
+                    ok = guard is not None and "__module__" in gt and "builtins" in gt and isinstance(guard.test, ast.Compare) and isinstance(guard.test.ops[0], ast.Eq)
+                    ctx.add("R4", f"json-envelope::{env}::name-only-envelope-restricted-to-builtins", ok, default.loc(n_),
+                            "" if ok else f"the {env} envelope stores only the class name and the decoder rebuilds it with getattr(builtins, name), but the encoder selects it under `{gt}`: a user exception class whose name shadows a builtin (e.g. a library's ConnectionError) comes back as the builtin class")
     for env in readers:
         if env not in written:
             ctx.fail("R4", f"json-envelope::{env}::writer", rec.loc(), f"the decoder handles {env} but the encoder never writes it")
